@@ -212,7 +212,11 @@ func checkC23(c *Ctx) {
 					// element-wise rewrite is enough only for fields whose length/positions do not change
 					if !whole {
 						if ia, ok := x.Addr.(*ssa.IndexAddr); ok {
-							if n, _, isF := FieldNameOfLoad(ia.X); isF && n == NameOf(f) {
+							// an element of the field's slice, also through a reslice of it
+							if DependsOn(ia.X, func(v ssa.Value) bool {
+								n, _, isF := FieldNameOfLoad(v)
+								return isF && n == NameOf(f)
+							}) {
 								return true
 							}
 						}
